@@ -82,4 +82,16 @@ AtMostOneCompletion == Cardinality(Completions) <= 1
 CloseReturns == (closePc = "cancel") ~> (closePc = "ret")
 \* known deviation, kept visible: a step closed while waiting for its execute input reports no completion
 CompletionAfterClose == closePc = "ret" => (Cardinality(Completions) = 1 \/ phase = "silent")
+\* Refinement: with the items made anonymous, this module implements the counter abstraction ForeachCounters.tla, whose
+\* inductive invariant Apalache discharges for ANY number of items and ANY parallelism (TLC checks the refinement for the
+\* bounded N here: PROPERTY CountersSpec).
+Count(st) == Cardinality({i \in Items : ist[i] = st})
+NotStarted == \A i \in Items : ist[i] = "idle"
+LoopOutcome == IF \E k \in Completions : notif[k].stage = "outputs" /\ notif[k].out = "success" THEN "success"
+               ELSE IF \E k \in Completions : notif[k].stage = "failed" /\ notif[k].out = "error" THEN "error" ELSE "none"
+FC == INSTANCE ForeachCounters WITH q <- IF NotStarted THEN N ELSE Count("queued"), r <- Count("running"), ok <- Count("ok"),
+        err <- Count("err"), ab <- Count("aborted"), phase <- IF phase = "collected" THEN "collected" ELSE "executing",
+        outcome <- LoopOutcome
+CountersSpec == FC!Spec
+CountersInv == FC!IndInv /\ FC!Safety
 =============================================================================
